@@ -64,7 +64,15 @@ func (pConn *PFCPConn) handleSessionEstablishmentRequest(msg message.Message) (m
 	remoteSEID := fseid.SEID
 	fseidIP := ip2int(fseid.IPv4Address)
 
+	// set once the session has been created; a request rejected after that
+	// point must give back what the session acquired so far
+	var created *PFCPSession
+
 	errProcessReply := func(err error, cause uint8) (message.Message, error) {
+		if created != nil {
+			pConn.RemoveSession(*created)
+		}
+
 		// Build response message
 		seres := message.NewSessionEstablishmentResponse(0, /* MO?? <-- what's this */
 			0,                    /* FO <-- what's this? */
@@ -89,6 +97,8 @@ func (pConn *PFCPConn) handleSessionEstablishmentRequest(msg message.Message) (m
 		return errProcessReply(ErrAllocateSession,
 			ie.CauseNoResourcesAvailable)
 	}
+
+	created = &session
 
 	addPDRs := make([]pdr, 0, MaxItems)
 	addFARs := make([]far, 0, MaxItems)
@@ -155,7 +165,6 @@ func (pConn *PFCPConn) handleSessionEstablishmentRequest(msg message.Message) (m
 
 	cause := upf.SendMsgToUPF(upfMsgTypeAdd, session.PacketForwardingRules, updated)
 	if cause == ie.CauseRequestRejected {
-		pConn.RemoveSession(session)
 		return errProcessReply(ErrWriteToDatapath,
 			ie.CauseRequestRejected)
 	}
